@@ -71,6 +71,9 @@ func nm(base string) gen { return words(base, "query", "fragment", "on", "null")
 var gDesc = oneOf(s(""),
 	s(`"d" `), s(`"""d""" `), s(`"" `), s(`"a\"b\\c" `), s(`"""a\"""b""" `),
 	s("\"\"\"\n  l1\n    l2\n  \"\"\" "), s("\"\"\"l1\n\n  l3\"\"\" "), s(`"""a "q" b""" `),
+	// an interior white-space-only line shorter than the indent of its neighbours (1, 2, 3 blanks, a TAB), closing delimiter less indented
+	s("\"\"\"\n    l1\n \n    l2\n    \"\"\" "), s("\"\"\"\n    l1\n  \n    l2\n    \"\"\" "), s("\"\"\"\n    l1\n   \n    l2\n    \"\"\" "),
+	s("\"\"\"\n    l1\n\t\n    l2\n    \"\"\" "), s("\"\"\"\n    l1\n    l2\n  \"\"\" "), s("\"\"\"l0\n    l1\n  \n    l2\"\"\" "),
 )
 
 func init() {
@@ -79,6 +82,9 @@ func init() {
 		s(`"s"`), s(`""`), s(`"a\"b\\c\né d"`), s("\"é\U0001F600\""), s("\"a\tb\""),
 		s(`"""b"""`), s(`""""""`), s(`"""a\"""b"""`), s(`"""a "q" b"""`),
 		s("\"\"\"\n    l1\n      l2\n    \"\"\""), s("\"\"\"l1\n  l2\"\"\""), s("\"\"\"l1\r\n\tl2\r\"\"\""),
+		// an interior white-space-only line shorter than the indent of its neighbours (1, 2, 3 blanks, a TAB), closing delimiter less indented
+		s("\"\"\"\n    l1\n \n    l2\n    \"\"\""), s("\"\"\"\n    l1\n  \n    l2\n    \"\"\""), s("\"\"\"\n    l1\n   \n    l2\n    \"\"\""),
+		s("\"\"\"\n    l1\n\t\n    l2\n    \"\"\""), s("\"\"\"\n    l1\n    l2\n  \"\"\""), s("\"\"\"l0\n    l1\n  \n    l2\"\"\""),
 		s("true"), s("false"), s("null"), s("E"), s("$v"),
 		s("[]"), seq(s("["), lazy(&gValue), s("]")), seq(s("["), lazy(&gValue), s(","), lazy(&gValue), s("]")),
 		s("{}"), seq(s("{k:"), lazy(&gValue), s("}")), seq(s("{k:"), lazy(&gValue), s(",l:"), lazy(&gValue), s("}")),
